@@ -29,8 +29,10 @@ class MountUnavailable(Exception):
     """this environment does not let us mount a tmpfs (not a defect of the code under test)"""
 
 
-def run_impl(lines, fs="shm", fault=None, crash_at=None, clock=None, noatime=False, gran=None, harness=None, timeout=120, persistent=None, reuse=None, keep=False, mounts=()):
-    """reuse: directory of a previous run (kept with keep=True) whose root is operated on by a NEW process;
+def run_impl(lines, fs="shm", fault=None, crash_at=None, clock=None, noatime=False, gran=None, harness=None, timeout=120, persistent=None, reuse=None, keep=False, mounts=(), peer_opens=None):
+    """peer_opens: path (relative to the root) that another thread of the process opens right after a close that
+    released its descriptor but reported a failure (the peer is given the number just released);
+    reuse: directory of a previous run (kept with keep=True) whose root is operated on by a NEW process;
     mounts: directories (relative to the root) that are each given a FRESH tmpfs of their own - separate
     filesystems whose inode numbers start over (unmounted before the directory is removed)"""
     base = "/dev/shm" if fs == "shm" else "/tmp"
@@ -48,6 +50,8 @@ def run_impl(lines, fs="shm", fault=None, crash_at=None, clock=None, noatime=Fal
         env["KSHIM_FAULT"] = "%s:%s:p" % persistent
     if crash_at:
         env["KSHIM_CRASH_AT"] = str(crash_at)
+    if peer_opens:
+        env["KSHIM_PEER_OPENS"] = peer_opens
     if clock:
         env["KSHIM_CLOCK"] = "%d:%d" % clock
     if noatime:
